@@ -9,6 +9,7 @@ import Rooc.Pre.Types
 import Rooc.Pre.Expand
 import Rooc.Proofs.Field
 import Rooc.Proofs.Pre
+import Rooc.Proofs.Iter
 namespace Rooc.Props.C18
 set_option linter.unusedSectionVars false
 open Rooc Rooc.Pre Rooc.Proofs.Pre
@@ -168,8 +169,7 @@ private theorem okWf_applyBinNumber (x : α) (op : BinOp) (b : Prim α) : OkWf (
   unfold applyBinNumber; cases b <;> first | exact okWf_floatArith _ _ _ | exact okWf_error _
 
 /-- closure: whatever the operands, a successful `apply_binary_op` returns a value inside the `i64` /
-`u64` range of its kind (no silent wrap of the RESULT; operands above `i64::MAX` are another matter,
-see `u64_operand_wrap_counterexample`). -/
+`u64` range of its kind (and the result is the exact one: `exact_integer_results`). -/
 theorem applyBinary_wf (a b : Prim α) (op : BinOp) (v : Prim α) (h : applyBinary a op b = .ok v) : v.wf = true := by
   suffices hs : OkWf (applyBinary a op b) from hs v h
   cases a with
@@ -188,12 +188,66 @@ theorem applyBinary_wf (a b : Prim α) (op : BinOp) (v : Prim α) (h : applyBina
     cases b <;> cases op <;> first | exact okWf_ofI64 _ | exact okWf_ofU64 _ | exact okWf_floatArith _ _ _ | exact okWf_checkedDiv _ _ | exact okWf_error _
   | other k => cases k <;> exact okWf_error _
 
-/-- … but a `PositiveInteger` OPERAND at or above 2^63 is reinterpreted (`as i64`) before the checked
-operation, so the returned integer can be mathematically wrong: 2^63 + 1 = -(2^63) + 1 (the harness
-reports these as `silent-integer-wrap`). -/
+/-! ### integer results are EXACT (the `as i64` wrap is gone since 9844b94) -/
+
+def intOp (op : BinOp) (x y : Int) : Option Int :=
+  match op with | .add => some (x + y) | .sub => some (x - y) | .mul => some (x * y) | _ => none
+
+/-- every `Integer` / `PositiveInteger` result of `+ - *` on integer-valued operands (`Integer`,
+`PositiveInteger`, `Boolean` on the right) is the mathematical result; a value that does not fit is the
+`Overflow` error, never a wrapped number.  No hypothesis on the size of the operands. -/
+theorem exact_integer_results (a b r : Prim α) (op : BinOp) (x y e : Int)
+    (ha : a = .integer x ∨ (∃ u : Nat, a = .pint u ∧ x = u)) (hb : b.intVal = some y) (he : intOp op x y = some e)
+    (h : applyBinary a op b = .ok r) : r.intVal = some e := by
+  rcases ha with rfl | ⟨u, rfl, rfl⟩
+  · cases b <;> cases op <;>
+      simp_all [applyBinary, applyBinInteger, Prim.intVal, intOp, ofI64, checkedI64, boolI] <;>
+      (split at h <;> simp_all) <;> (subst h; simp [Prim.intVal]) <;> omega
+  · cases b <;> cases op <;>
+      simp_all [applyBinary, applyBinPint, Prim.intVal, intOp, ofI64, ofU64, checkedI64, checkedU64, boolI] <;>
+      (split at h <;> simp_all) <;> (try (subst h; simp [Prim.intVal])) <;> (try omega)
+    all_goals (rename_i hq; obtain ⟨h1, h2⟩ := hq; rw [inU64_iff] at h1; omega)
+
+/-- … and conversely the operation only fails with `Overflow` when the exact result is outside both ranges
+that the result kind could hold: a representable `i64` result of a mixed operation is always returned -/
+theorem mixed_integer_complete (x : Int) (u : Nat) (op : BinOp) (e : Int)
+    (he : intOp op x u = some e) (hfit : inI64 e = true) :
+    applyBinary (.integer x : Prim α) op (.pint u) = .ok (.integer e) := by
+  cases op <;> simp_all [applyBinary, applyBinInteger, intOp, ofI64, checkedI64]
+
+/-! #### regression: the code before the repair -/
+
+/-- BEFORE 9844b94 a `PositiveInteger` OPERAND at or above 2^63 was reinterpreted (`as i64`) before the
+checked operation, so the returned integer could be mathematically wrong: 2^63 + 1 = -(2^63) + 1 (the
+harness reports these as `silent-integer-wrap`; the inputs stay in the regression stream). -/
 theorem u64_operand_wrap_counterexample :
-    applyBinary (.pint 9223372036854775808 : Prim α) .add (.integer 1) = .ok (.integer (-9223372036854775807)) := by
-  simp [applyBinary, applyBinPint, u64AsI64, ofI64, checkedI64, inI64, i64Min, i64Max]
+    applyBinaryWrap (.pint 9223372036854775808 : Prim α) .add (.integer 1) = .ok (.integer (-9223372036854775807)) := by
+  simp [applyBinaryWrap, applyBinPintWrap, u64AsI64, ofI64, checkedI64, inI64, i64Min, i64Max]
+
+/-- the repair changed nothing as long as every `PositiveInteger` operand is below 2^63 -/
+theorem repair_agrees_binary (a b : Prim α) (op : BinOp)
+    (ha : ∀ u, a = .pint u → u < 9223372036854775808) (hb : ∀ u, b = .pint u → u < 9223372036854775808) :
+    applyBinary a op b = applyBinaryWrap a op b := by
+  cases a with
+  | integer i =>
+    cases b with
+    | pint n =>
+      have hn := hb n rfl
+      cases op <;> simp [applyBinaryWrap, applyBinIntegerWrap, applyBinary, applyBinInteger, u64AsI64, hn]
+    | _ => cases op <;> simp [applyBinaryWrap, applyBinIntegerWrap, applyBinary, applyBinInteger]
+  | pint u =>
+    have hu := ha u rfl
+    cases b with
+    | pint n =>
+      have hn := hb n rfl
+      cases op <;> simp [applyBinaryWrap, applyBinPintWrap, applyBinary, applyBinPint, u64AsI64, hn, hu]
+    | _ => cases op <;> simp [applyBinaryWrap, applyBinPintWrap, applyBinary, applyBinPint, u64AsI64, hu]
+  | _ => simp [applyBinaryWrap]
+
+example : applyBinary (.pint 9223372036854775808 : Prim α) .add (.integer 1) = .error .overflow := by
+  simp [applyBinary, applyBinPint, ofI64, checkedI64, inI64, i64Min, i64Max]
+example : applyBinary (.integer (-1) : Prim α) .add (.pint 9223372036854775808) = .ok (.integer 9223372036854775807) := by
+  simp [applyBinary, applyBinInteger, ofI64, checkedI64, inI64, i64Min, i64Max]
 
 /-- `as_primitive` on operator expressions never panics -/
 theorem eval_binary_never_panics (e : PExp α) : e.eval ≠ .error (.binOpError .panic) := by
@@ -243,6 +297,21 @@ theorem range_size (lo hi : Int) (inclusive : Bool) :
   simp [rangeVals, intsFrom_length]
 
 example : (rangeVals 0 100000000000 false).length = 100000000000 := by rw [range_size]; rfl
+
+/-- **output size of an expansion**: the number of terms a scoped aggregate / rows a quantified
+constraint / variables a declaration expands to is exactly the product of the sizes of its iteration
+sets (when these do not depend on outer iteration variables) — nothing else in the input makes the
+compiled model grow. -/
+theorem expansion_size {β : Type} (k : Env → Except IErr β) (its : List It) (P : Nat) (hP : iterProduct its = some P)
+    (env : Env) (xs : List β) (h : iterate k its env = .ok xs) : xs.length = P := by
+  simp only [iterate] at h
+  cases he : envs its env with
+  | error e => simp [he] at h
+  | ok es =>
+    simp [he] at h
+    rw [Rooc.Proofs.Iter.mapE_length k es xs h, Rooc.Proofs.Iter.envs_length_prod its P hP env es he]
+
+example : iterProduct [⟨["i"], .range (.lit 0) (.lit 3) false⟩, ⟨["a", "b"], .zip2 [1, 2] [3, 4, 5]⟩] = some 6 := by decide
 
 /-! ### numeric casts stay inside the target type (exact arithmetic with IEEE special values) -/
 section casts
